@@ -21,8 +21,9 @@ is the recorded known finding `frank.fit:calibration-inaccurate-near-zero-tau`;
 positive branch the code's residual has a zero for EVERY target `τ₀ < 1`, including `τ₀ ≤ 0`, where
 the true calibration has no positive solution (for `τ₀ = 0` none at all: `fit` should refuse).
 Still external: the accuracy of `integrate.quad` and of `least_squares` (and its bound `|θ| ≤ 709.78`,
-known finding `frank.fit:theta-clamped-at-solver-bound`), and the behaviour of the code's residual
-on the negative branch near `0` (not monotone there, see `C10.frank_tau_monotone_partial`).
+known finding `frank.fit:theta-clamped-at-solver-bound`).  On the negative branch the code's residual
+is not monotone near `0⁻` (`frank_code_residual_not_monotone_neg`); existence/uniqueness of ITS
+negative roots is not treated.
 -/
 namespace CopVerif.Props.C10c
 open CopVerif MeasureTheory Set Filter Topology
@@ -240,6 +241,19 @@ theorem frank_code_spurious_root {ε τ₀ : ℝ} (hε : 0 < ε) (hε2 : ε ≤ 
   · rw [FrankTau.bridge_idealTau]
     have := FrankTau.tau_pos (lt_of_lt_of_le hε ha)
     linarith
+
+/-- The remark in `C10.frank_tau_monotone_partial` made precise: on the NEGATIVE branch the code's
+residual (lower limit `ε ∈ (0,1]`, exact integral) is NOT monotone — it tends to `−∞` as `a → 0⁻`
+while the ideal `τ` tends to `0`.  So near `0⁻` the solver's objective is not the calibration map;
+monotonicity of the code's residual holds on `[ε,∞)` only (`C10.frank_tau_monotone_partial`). -/
+theorem frank_code_residual_not_monotone_neg {ε τ₀ : ℝ} (hε : 0 < ε) (hε1 : ε ≤ 1) :
+    ∃ a b : ℝ, a < b ∧ b < 0 ∧
+      Gen.Frank.tauResidual (fun f lo hi => ∫ t in lo..hi, f t) ε τ₀ b
+        < Gen.Frank.tauResidual (fun f lo hi => ∫ t in lo..hi, f t) ε τ₀ a := by
+  obtain ⟨a, b, hab, hb, h⟩ := FrankTau.tauEps_not_monotone_neg hε hε1
+  refine ⟨a, b, hab, hb, ?_⟩
+  rw [FrankTau.bridge_residual, FrankTau.bridge_residual]
+  linarith
 
 /-! ## non-vacuity -/
 
